@@ -47,6 +47,11 @@ pub struct HCase {
     pub write_plan: Vec<u16>,
     /// writes fail with EPIPE once this many bytes were accepted (fault-injecting runs only)
     pub write_err_at: Option<usize>,
+    /// what happens at `write_err_at`: 0 EPIPE from then on; transient, once: 1 the write that would
+    /// pass the offset returns WouldBlock, 2 TimedOut (a send timeout firing after a partial write);
+    /// 3 / 4 / 5 the next flush returns Interrupted / WouldBlock / TimedOut
+    #[serde(default)]
+    pub write_err_kind: u8,
 }
 
 impl HCase {
@@ -58,6 +63,7 @@ impl HCase {
             read_plan: vec![],
             write_plan: vec![],
             write_err_at: None,
+            write_err_kind: 0,
         }
     }
     pub fn has_faults(&self) -> bool {
@@ -151,6 +157,8 @@ pub struct FaultWriter<'c> {
     pub out: Vec<u8>,
     plan: PlanIter<'c>,
     err_at: Option<usize>,
+    err_kind: u8,
+    fired: bool,
     pub short_writes: u64,
     pub write_eintr: u64,
     pub write_errors: u64,
@@ -163,11 +171,24 @@ impl Write for FaultWriter<'_> {
         }
         let mut n = b.len();
         if let Some(lim) = self.err_at {
-            if self.out.len() >= lim {
-                self.write_errors += 1;
-                return Err(io::Error::from(io::ErrorKind::BrokenPipe));
+            match self.err_kind {
+                0 => {
+                    if self.out.len() >= lim {
+                        self.write_errors += 1;
+                        return Err(io::Error::from(io::ErrorKind::BrokenPipe));
+                    }
+                    n = n.min(lim - self.out.len());
+                }
+                1 | 2 if !self.fired => {
+                    if self.out.len() >= lim {
+                        self.fired = true;
+                        self.write_errors += 1;
+                        return Err(io::Error::from(if self.err_kind == 1 { io::ErrorKind::WouldBlock } else { io::ErrorKind::TimedOut }));
+                    }
+                    n = n.min(lim - self.out.len());
+                }
+                _ => {}
             }
-            n = n.min(lim - self.out.len());
         }
         match self.plan.next() {
             Some(0) => {
@@ -185,6 +206,17 @@ impl Write for FaultWriter<'_> {
     }
     fn flush(&mut self) -> io::Result<()> {
         self.flushes += 1;
+        if let Some(lim) = self.err_at {
+            if self.err_kind >= 3 && !self.fired && self.out.len() >= lim {
+                self.fired = true;
+                self.write_errors += 1;
+                return Err(io::Error::from(match self.err_kind {
+                    3 => io::ErrorKind::Interrupted,
+                    4 => io::ErrorKind::WouldBlock,
+                    _ => io::ErrorKind::TimedOut,
+                }));
+            }
+        }
         Ok(())
     }
 }
@@ -261,8 +293,16 @@ pub fn run_h_with(case: &HCase, svc: &varlink::VarlinkService, rec: &Rec) -> HOb
         handle_calls: 0,
         read_calls: 0,
     };
+    // (the upgraded handler of shape V5 passes an interrupted read on as an error, by its own choice:
+    // in the in-memory scenario, which has no notion of a connection that legitimately ends there, its
+    // reads are only ever short, never interrupted; the socket scenario does interrupt them)
+    let read_plan: Vec<u16> = if case.cfg.upgrade_mode == 5 {
+        case.read_plan.iter().map(|x| (*x).max(1)).collect()
+    } else {
+        case.read_plan.clone()
+    };
     let mut rplan = PlanIter {
-        plan: &case.read_plan,
+        plan: &read_plan,
         pos: 0,
     };
     let mut w = FaultWriter {
@@ -272,6 +312,8 @@ pub fn run_h_with(case: &HCase, svc: &varlink::VarlinkService, rec: &Rec) -> HOb
             pos: 0,
         },
         err_at: case.write_err_at,
+        err_kind: case.write_err_kind,
+        fired: false,
         short_writes: 0,
         write_eintr: 0,
         write_errors: 0,
